@@ -1,6 +1,7 @@
 """C19  HTML report shows every segment and error, with all source data escaped."""
 from html.parser import HTMLParser
 
+import re
 from .. import core, docgen, observe, x12ref
 from . import genfaulty
 
@@ -157,11 +158,31 @@ def _check_case(case):
             ordinal.setdefault((isa, gs, st, pos), i)
         idx = [k for k, _ in seg_items]
         all_err_text = [norm(t) for kind, t in p.items if kind == 'error']
+        # headers still open when the input ends (a header that a later header of the same level abandoned in mid-file is not one
+        # of them: its missing trailer is detected, and reported, at that later header)
+        open_at_end = {}
+        for s in segs:
+            v = [x[0] if x else '' for x in s.elems]
+            if s.id == 'ISA' and len(v) > 12:
+                open_at_end = {'IEA': v[12]}
+            elif s.id == 'GS' and len(v) > 5:
+                open_at_end.pop('SE', None)
+                open_at_end['GE'] = v[5]
+            elif s.id == 'ST' and len(v) > 1:
+                open_at_end['SE'] = v[1]
+            elif s.id in ('SE', 'GE', 'IEA'):
+                open_at_end.pop(s.id, None)
+                if s.id != 'SE':
+                    open_at_end.pop('SE', None)
+                if s.id == 'IEA':
+                    open_at_end.pop('GE', None)
         for e in o.errors:
             msg = norm(e['msg'])
             if not msg:
                 continue
-            if meta.get('truncated') and (e['level'], e['code']) in (('st', '2'), ('gs', '3'), ('isa', '023')) and msg.startswith('Mandatory segment'):
+            m_ = re.search(r'\((SE|GE|IEA)=([^)]*)\)', msg)
+            if meta.get('truncated') and (e['level'], e['code']) in (('st', '2'), ('gs', '3'), ('isa', '023')) and msg.startswith('Mandatory segment') \
+                    and m_ and open_at_end.get(m_.group(1)) == m_.group(2):
                 # trailers missing at end of input are listed at the end of the report
                 if not any(msg in w for w in all_err_text):
                     out.fail('missing-trailer-message:%s' % e['level'], '%s error code %s: message %r not in the report' % (e['level'], e['code'], msg[:120]))
